@@ -320,6 +320,13 @@ def gen_lib(ctx, quick):
             else:
                 sc = [(k, P), ((k + 1) % NK, Q), RC(k), RC(k), (k, P), ((k + 1) % NK, Q)]
             ths.append((kind, sc))
+        # a key deleted by the thread and NOT created again before the thread exits: its destructor must not run
+        for n, k in enumerate(range(400 + 16 * rep_, 400 + 16 * rep_ + 9)):
+            P = r.rng(1, 1 << 40)
+            has[k] = 1
+            sc = [(k, P), (-2 - k, 2)] if n % 3 == 0 else ([(k, P), RC(k), (k, P), (-2 - k, 2)] if n % 3 == 1 else
+                                                           [(k, P), ((k + 500) % NK, P), (-2 - k, 2), ((k + 500) % NK, P + 1)])
+            ths.append((n % 3 if n < 3 else (n // 3) % 3, sc))
         # and the three kinds on the same pattern / index
         for kind in range(3):
             k = r.choice(BOUNDARY); P = r.rng(1, 1 << 40)
@@ -336,6 +343,10 @@ def gen_lib(ctx, quick):
             ths.append((r.below(3), s))
         cases.append((r.choice([1, 2, 4, 8]), has, ths))
     return cases
+
+
+DELETED_ID = "C11-deleted-key-destructor"
+DELETED = {"policy": "strict", "seen": 0}     # set by run(): "strict" | "allow" (candidate defect present and not yet listed/fixed)
 
 
 def run_lib_case(libexe, drv, case, vline="variant 0 0"):
@@ -367,11 +378,19 @@ def run_lib_case(libexe, drv, case, vline="variant 0 0"):
     hasd = list(has)
     ncalls = 0
     model_cases, got_all, comparable = [], [], []
+    dead = {}                                       # slot -> index of a key deleted (by any thread so far) and not created again
     for i, (kind, sc) in enumerate(ths):
         cur, ops, recs, lifo = {}, [], list(rec.get(i, [])), True
         for slot, v in sc:
-            if slot <= -2:
+            if slot <= -2 and v == 2:
                 j = -2 - slot
+                if not recs or recs.pop(0) != (j, -1):
+                    return "thread %d: deletion of the key of slot %d was not reported" % (i, j), len(ths), ncalls, 0, out
+                cur.pop(key_of[j], None); dead[j] = key_of[j]; hasd[j] = 0     # the model's column is cleared by delete too
+                ops.append(("x", key_of[j]))
+            elif slot <= -2:
+                j = -2 - slot
+                dead.pop(j, None)
                 old = key_of[j]
                 if not recs or recs[0][0] != j or recs[0][1] < 0:
                     return "thread %d: re-creation of the key of slot %d failed or was not reported" % (i, j), len(ths), ncalls, 0, out
@@ -386,15 +405,25 @@ def run_lib_case(libexe, drv, case, vline="variant 0 0"):
             elif slot >= 0:
                 cur[key_of[slot]] = v; ops.append(("s", key_of[slot], v))
         dt = set(key_of[j] for j in range(len(key_of)) if hasd[j] and key_of[j] >= 0)
-        calls = [(key_of[tag] if 0 <= tag < len(key_of) else "oob", v) for tag, v in per.get(i, [])]
+        raw = per.get(i, [])
+        late = [(tag, v) for tag, v in raw if tag in dead]
+        if late:
+            DELETED["seen"] += len(late)
+            if DELETED["policy"] == "strict":
+                return ("thread %d (termination kind %d): the destructor of key %d, which the thread had deleted (myth_key_delete "
+                        "returned) and not created again before it terminated, was called with %d" % (
+                            i, kind, dead[late[0][0]], late[0][1])), len(ths), ncalls, 0, out
+            raw = [(tag, v) for tag, v in raw if tag not in dead]
+        calls = [(key_of[tag] if 0 <= tag < len(key_of) else "oob", v) for tag, v in raw]
         ncalls += len(calls)
         msg = oracle_fini(dt, list(cur.items()), calls)
         if msg:
             hist = "; ".join(("setspecific(key %d, %d)" % (o[1], o[2])) if o[0] == "s" else
-                             "key_delete(%d) + key_create -> same index" % o[1] for o in ops[:10])
+                             ("key_delete(%d)" % o[1] if o[0] == "x" else "key_delete(%d) + key_create -> same index" % o[1])
+                             for o in ops[:10])
             return "thread %d (termination kind %d: %s; history: %s) - %s" % (
                 i, kind, ["return", "myth_exit", "cancel"][kind], hist, msg), len(ths), ncalls, 0, out
-        model_cases.append(finib_case(sorted(dt), ops)); got_all.append(calls); comparable.append(lifo)
+        model_cases.append(finib_case(sorted(dt), [o for o in ops if o[0] != "x"])); got_all.append(calls); comparable.append(lifo)
     model, _, _ = vlib.run_lines([drv], [vline] + model_cases)
     model = model[1:]
     dis = 0
@@ -404,6 +433,54 @@ def run_lib_case(libexe, drv, case, vline="variant 0 0"):
         if comparable[i] and exp != got_all[i]:
             dis += 1
     return None, len(ths), ncalls, dis, out
+
+
+def probe_deleted(libexe):
+    """does the destructor of a key that the thread deleted (and did not create again) still run at thread exit?
+    returns (present, text of the witness run)"""
+    ths = [(kind, [(kind + 1, 4242 + kind), (-2 - (kind + 1), 2)]) for kind in range(3)]
+    txt = lib_case_text(-1, [1] * 8, ths)
+    rc, out = vlib.sh([libexe], input=txt + "\n", timeout=60)
+    hit = []
+    for l in out.split("\n"):
+        w = l.split()
+        if w and w[0].startswith("T") and "calls" in w:
+            i = int(w[0][1:])
+            for t in w[w.index("calls") + 1:]:
+                tag, v = t.split(":")
+                if int(tag) == i + 1 and int(v) != 0:
+                    hit.append("T%d %s" % (i, t))
+    return bool(hit), "witness `%s` -> %s" % (txt, "; ".join(hit) or "no call for the deleted keys")
+
+
+SAN_FLAGS = ["-fsanitize=address,undefined", "-fno-sanitize-recover=all", "-fno-omit-frame-pointer"]
+SAN_ENV = {"ASAN_OPTIONS": "detect_leaks=0:abort_on_error=0:halt_on_error=1", "UBSAN_OPTIONS": "print_stacktrace=1:halt_on_error=1"}
+
+
+def build_san(ctx):
+    """thorough tier: the library sources and the library harness under AddressSanitizer + UndefinedBehaviorSanitizer"""
+    lib = None
+    for _ in range(6):
+        try:
+            src = vlib.build_lib(extra=SAN_FLAGS)
+            lib = os.path.join(ctx.dir, "libmyth_san.a")
+            shutil.copyfile(src, lib + ".tmp"); os.replace(lib + ".tmp", lib)
+            break
+        except OSError:
+            lib = None
+    if lib is None:
+        raise vlib.BuildError("sanitizer build of the library vanished repeatedly")
+    return vlib.cc(os.path.join(ctx.dir, "c11_dtor_lib_san"), [os.path.join(H, "c11_dtor_lib.c")],
+                   flags=vlib.lib_cflags() + ["-O0", "-g", "-I" + H] + SAN_FLAGS, libs=[lib, "-lpthread", "-ldl", "-lrt"])
+
+
+def san_report(rc, out):
+    m = re.search(r"(ERROR: AddressSanitizer[^\n]*|[^\n]*runtime error:[^\n]*|ERROR: UndefinedBehaviorSanitizer[^\n]*)", out)
+    if m:
+        return m.group(1).strip()[:300]
+    if rc != 0 or "done" not in out.split("\n"):
+        return "the sanitizer build did not complete the run (exit code %d): %s" % (rc, out[-200:].strip())
+    return None
 
 
 def corpus_cases():
@@ -461,8 +538,43 @@ def run(ctx):
 
     lib_fail, lib_threads, lib_calls, lib_dis, nlib = [], 0, 0, 0, 0
     kinds = [0, 0, 0]
+    # "deleted and not created again before the thread exits": probe, then decide how the oracle treats it
+    listed = {f["id"] for f in vlib.known_findings("C11")}
+    try:
+        fixed_txt = " ".join(json.load(open(os.path.join(vlib.VERIF, "known_findings.json"))).get("fixed", []))
+    except (OSError, ValueError):
+        fixed_txt = ""
+    del_present, del_witness = probe_deleted(libexe)
+    DELETED["seen"] = 0
+    if not del_present or DELETED_ID in fixed_txt:
+        DELETED["policy"] = "strict"           # absent, or recorded as fixed: a destructor call for a deleted key is a violation
+        if del_present:
+            ths_ = [(kind, [(kind + 1, 4242 + kind), (-2 - (kind + 1), 2)]) for kind in range(3)]
+            lib_fail.append((lib_case_text(-1, [1] * 8, ths_), del_witness,
+                             "the destructor of a key that the thread deleted (myth_key_delete returned 0) and did not create "
+                             "again is called with the thread's value when the thread terminates - by return (T0), myth_exit "
+                             "(T1) and cancellation (T2): " + del_witness))
+    elif DELETED_ID in listed:
+        DELETED["policy"] = "allow"
+        ctx.known("destructor of a DELETED key still runs at thread exit: " + del_witness)
+    else:
+        # candidate defect, neither listed nor recorded as fixed (notes/C11.md): the oracle stays quiet about exactly this
+        DELETED["policy"] = "allow"
+        ctx.notes.append("CANDIDATE DEFECT %s (not in known_findings.json): myth_key_delete leaves the destructor in the key "
+                         "table; %s.  The oracle does not judge destructor calls for keys the thread deleted and did not create "
+                         "again until the id is listed (-> KNOWN-FINDING) or appears in a `fixed:` line (-> VIOLATION when it "
+                         "comes back)." % (DELETED_ID, del_witness))
+    san_exe, san_runs, san_fail = None, 0, []
+    if ctx.thorough:
+        san_exe = build_san(ctx)
     for case in gen_lib(ctx, q):
         msg, nt, nc, dis, out = run_lib_case(libexe, drv, case, cases[0])
+        if san_exe:
+            rc_s, out_s = vlib.sh([san_exe], input=lib_case_text(*case) + "\n", timeout=300, env=dict(os.environ, **SAN_ENV))
+            san_runs += 1
+            sm = san_report(rc_s, out_s)
+            if sm:
+                san_fail.append((lib_case_text(*case), out_s[-1500:], "sanitizer report in a thread-exit run: " + sm))
         nlib += 1; lib_threads += nt; lib_calls += nc; lib_dis += dis
         for kind, _ in case[2]:
             kinds[kind] += 1
@@ -471,6 +583,13 @@ def run(ctx):
         elif dis:
             lib_fail.append((lib_case_text(*case), out[-400:], None))
 
+    lib_fail = san_fail + lib_fail
+    ctx.cov["sanitizer"] = ({"build": "library sources + harness/c11_dtor_lib.c with " + " ".join(SAN_FLAGS) +
+                             " (gcc; full ASan works with the library's context switches, leak detection off)",
+                             "library_processes_run": san_runs, "reports": len(san_fail)} if ctx.thorough else
+                            "thorough tier only")
+    ctx.cov["deleted_key_destructor"] = {"witness": del_witness, "present": del_present, "oracle": DELETED["policy"],
+                                         "calls_for_deleted_keys_seen": DELETED["seen"]}
     ctx.cov["variant"] = {"source_has_generation_tags": gen, "generation_field_bytes": widths,
                           "long_histories": {"cycles": LONG_N, "cases": 3 * 4 * len(LONG_N) if gen else 0},
                           "walk": "a slot recorded under another generation than the index' current one is passed as NULL "
